@@ -4,8 +4,11 @@
   2 MiB stack, see the `depth` probes of the check.)
 
   Proved: operations implemented with a loop along the cdr chain have call depth bounded by the
-  nesting depth alone, for every value.  Disproved for the derived `Clone`/`PartialEq` (and the
-  derived impls on `SpanInfo`): their depth is the list length — recorded as known findings.
+  nesting depth alone, for every value.  On the pinned tree `Clone`/`PartialEq` of `Cons` and
+  `Clone`/`PartialEq`/drop of a datum's span information were derived and recursed once per element
+  (`C16_derived_linear` is kept as the witness of that defect); /repo commit 54f14f8 replaced them by
+  loops, so every operation the property lists is now in the `looped` class.  That the real
+  implementations are in that class is what the depth probes observe (10^6 elements, 2 MiB stack).
 -/
 import LexprModel.Depth
 import LexprModel.ListOps
@@ -35,8 +38,8 @@ theorem loopedList_le : ∀ xs : List Value, loopedList xs ≤ nestingList xs + 
     simp only [loopedList, nestingList]; omega
 end
 
-/-- **C16_depth_looped**: for drop, print, Display, parse, to_vec, iterators, index, is_list the
-    call depth is at most nesting + 1, whatever the number of elements. -/
+/-- **C16_depth_looped**: for clone, ==, drop (values and datums), print, Display, parse, to_vec,
+    iterators, index, is_list the call depth is at most nesting + 1, whatever the number of elements. -/
 theorem C16_depth_looped (v : Value) : looped v ≤ nesting v + 1 := looped_le v
 
 /-- a flat list of n atoms has nesting 1: depth 2 for the looped operations, for every n -/
@@ -51,8 +54,8 @@ theorem C16_flat_list (n : Nat) : looped (Value.list (List.replicate n (.number 
     simp only [Value.list, List.replicate_succ, Value.append, looped]
     have := h n; omega
 
-/-- **C16_derived_linear** (witness of the known finding): the derived `Clone` / `==` recurse once
-    per element. -/
+/-- **C16_derived_linear** (witness of the defect repaired by 54f14f8): a derived `Clone` / `==`
+    recurses once per element. -/
 theorem C16_derived_linear (n : Nat) :
     derived (Value.list (List.replicate n (.number (.pos 7)))) = n + 1 := by
   induction n with
